@@ -39,7 +39,9 @@ def relation_case(draw, tier="quick", k=0):
     elif rel == "compose":
         base = draw(G.pure_id_case(with_third=True))
     else:
-        base = draw(G.stratified_case(k, quick=(tier == "quick"), backends=G.BACKENDS + [LV.NAME]))
+        # a repeated axis (diagonal) makes einx emit two transposes in a row; permuting the output then exercises their merge
+        flags = {"more_diag": True} if draw(st.integers(0, 3)) == 0 else None
+        base = draw(G.stratified_case(k, quick=(tier == "quick"), backends=G.BACKENDS + [LV.NAME], flags=flags))
     rnd = [draw(st.integers(0, 10**6)) for _ in range(6)]
     return {"rel": rel, "base": base, "rnd": rnd}
 
